@@ -222,9 +222,15 @@ class WorldA(object):
         return self.call("start", self.node.start)
 
     def start_consumer(self, name="consumer"):
+        # a consumer belongs to ONE connection: it keeps calling get_message() on the association
+        # that was current when it started (Diameter.get_message() is a one-line delegation to it);
+        # otherwise a consumer that outlives an eager restart would start waiting on the NEXT
+        # connection and look "stuck"
+        assoc = self.node._association
+
         def loop():
             while True:
-                m = self.node.get_message()
+                m = assoc.get_message() if assoc is not None else self.node.get_message()
                 self.hist.add("app_rx", raw=m.dump() if m is not None else None)
                 if m is None:
                     # get_message returns None once the association stops
